@@ -29,9 +29,11 @@ def run(ck):
     # relative-looking oddities and absolute compiler paths
     extra = []
     for _ in range(400 if ck.tier == "quick" else 5000):
-        ws = [ck.rng.choice(NAMES + ["w", "x"]) for _ in range(ck.rng.randint(0, 3))]
-        pkg = [ck.rng.choice(NAMES + ["x"]) for _ in range(ck.rng.randint(0, 3))]
-        src = [ck.rng.choice(NAMES + ["x", "lib.rs"]) for _ in range(ck.rng.randint(1, 3))]
+        # names that are suffixes / prefixes of one another: an overlap is an overlap of whole components only
+        pool = NAMES + ["w", "x", "aa", "asrc", "mysrc", "srcs", "x-tests", "layout-tests", "tests2", "a.b"]
+        ws = [ck.rng.choice(pool) for _ in range(ck.rng.randint(0, 3))]
+        pkg = [ck.rng.choice(pool) for _ in range(ck.rng.randint(0, 3))]
+        src = [ck.rng.choice(NAMES + ["x", "lib.rs", "it.rs"]) for _ in range(ck.rng.randint(1, 3))]
         extra.append((["/"] + ws, pkg, src))
     lines, meta = [], []
     for (ws, pkg, src) in cases + extra:
